@@ -383,8 +383,8 @@ class Ctx:
             raise tlc.TlcError(f"model {name} did not pass:\n" + res["out"][-3000:])
         return res
 
-    def impl_model(self, name, scns, maxb=3, maxuser=3, fixed=("F1",), simulate=None, max_replay=400, invariants=None,
-                   timeout=1500):
+    def impl_model(self, name, scns, maxb=3, maxuser=3, fixed=None, simulate=None, max_replay=400, invariants=None,
+                   timeout=1500, faults=(), maxfaults=0):
         """Explore JadeImpl on the given scenarios (exhaustively, or by simulation), then replay the behaviours TLC
         produced into the real code: events predicted by the model vs. events observed (conformance), and the real
         traces are judged by the monitor like any other."""
@@ -397,7 +397,8 @@ class Ctx:
         invs = invariants or ["MonitorClean", "N_OneSubmitterRole", "N_NodesBound", "N_CountersMatch", "N_DoneHasRow",
                               "N_RowsUnique"]
         cfg = ["SPECIFICATION Spec", "CONSTANTS", "  Scns <- ScnSet", f"  MaxB = {maxb}", f"  MaxUser = {maxuser}",
-               "  Monitor = TRUE", "  Log = TRUE", "  Fixed = {%s}" % ", ".join(json.dumps(x) for x in fixed),
+               "  Monitor = TRUE", "  Log = TRUE", "  Fixed = {%s}" % ", ".join(json.dumps(x) for x in sorted(fixed or FIXED)),
+               "  FaultKinds = {%s}" % ", ".join(json.dumps(x) for x in faults), f"  MaxFaults = {maxfaults}",
                "VIEW View"] + [f"INVARIANT {i}" for i in invs] + ["INVARIANT DumpBehaviour", "CHECK_DEADLOCK FALSE"]
         cfgp = os.path.join(gen, mod + ".cfg")
         with open(cfgp, "w") as f:
@@ -444,6 +445,39 @@ class Ctx:
                                  "path": uniq[0]["path"][:60]})
         self.judge(traces, "replays of JadeImpl behaviours")
         return res
+
+    def impl_liveness(self, name, scns, maxb=3, maxuser=4, fixed=None):
+        """C05's eventual completion on JadeImpl: FairSpec (weak fairness on every process step, batch start, job exit and
+        on the user's recovery) => <>complete; no state constraint, monitor frozen. Also shows that the recovery is needed
+        (MaxUser = 0 must violate the property: the refused-last-node race is in the model)."""
+        gen = os.path.join(VERIF, "out", "gen")
+        os.makedirs(gen, exist_ok=True)
+        recs = [scenario.tla_scn(s, f"s{i}") for i, s in enumerate(scns)]
+        out = {}
+        for tag, mu in (("with recovery", maxuser), ("without recovery", 0)):
+            mod = "MC_live_" + re.sub(r"[^A-Za-z0-9]", "_", tag) + f"_{os.getpid()}"
+            with open(os.path.join(gen, mod + ".tla"), "w") as f:
+                f.write(genmc.mc_module(mod, "JadeImpl", recs))
+            cfgp = os.path.join(gen, mod + ".cfg")
+            with open(cfgp, "w") as f:
+                f.write("\n".join(["SPECIFICATION FairSpec", "CONSTANTS", "  Scns <- ScnSet", f"  MaxB = {maxb}", f"  MaxUser = {mu}",
+                                   "  Monitor = FALSE", "  Log = FALSE", "  FaultKinds = {}", "  MaxFaults = 0",
+                                   "  Fixed = {%s}" % ", ".join(json.dumps(x) for x in sorted(fixed or FIXED)),
+                                   "PROPERTY EventuallyComplete", "CHECK_DEADLOCK FALSE"]) + "\n")
+            res = tlc.run_tlc(mod, cfg=cfgp, workers=NCPU, cwd=gen, timeout=1500)
+            for ext in (".tla", ".cfg"):
+                os.remove(os.path.join(gen, mod + ext))
+            out[tag] = res
+        ok = tlc.tlc_ok(out["with recovery"])
+        needs = "Temporal property EventuallyComplete was violated" in out["without recovery"]["out"]
+        self.models.append({"name": name, "module": "JadeImpl", "mode": "liveness (FairSpec => <>complete), no state constraint",
+                            "scenarios": len(scns), "states": out["with recovery"]["distinct"],
+                            "transitions": out["with recovery"]["states"], "wall_s": round(out["with recovery"]["wall"], 1),
+                            "ok": bool(ok), "violated_without_user_recovery": bool(needs)})
+        if not ok:
+            raise tlc.TlcError(f"liveness model {name} did not pass:\n" + out["with recovery"]["out"][-3000:])
+        if not needs:
+            self.notes.append("liveness is not sensitive to the user's recovery on these scenarios (vacuity warning)")
 
     def judge(self, traces, what="", ignore_other=False, module="MonTrace", encoder=None, clauses=None):
         """Validate recorded traces against the monitor; collect violations of this property's clauses."""
@@ -580,7 +614,7 @@ def make_protocol_check(salt, gen_kw=None, extra=None):
         protocol_suite(ctx, salt=salt, gen_kw=gen_kw)
         if extra:
             extra(ctx)
-        return ctx.finish(rule=RULE_PROTOCOL + ("; plus resubmission / cancellation histories" if extra else ""))
+        return ctx.finish(rule=RULE_PROTOCOL + ("; plus " + (extra.__doc__ or extra.__name__).strip().split("\n")[0] if extra else ""))
     return chk
 
 
@@ -757,7 +791,7 @@ def check_C08(ctx):
                            "events of whole submissions")
 
 
-FIXED = {"F1", "F9"}      # findings repaired in the current tree (the models follow the code)
+FIXED = {"F1", "F9", "F2"}      # findings repaired in the current tree (the models follow the code)
 
 
 def check_C10(ctx):
@@ -1046,6 +1080,7 @@ def check_C18(ctx):
     rng = random.Random(ctx.seed)
     tasks = [("run_retry", x) for x in funcs.retry_inputs(4 if q else 6)]
     tasks += [("run_script", (f,)) for f in funcs.script_inputs()]
+    tasks += [("run_script", (f, True)) for k, f in enumerate(funcs.script_inputs()) if k % (4 if q else 1) == 0]
     tasks += [("run_squeue", x) for x in funcs.squeue_inputs(rng, 300 if q else 5000)]
     tasks += [("run_submit", (c,)) for c in funcs.SUBMIT]
     obs = run_obs(tasks)
@@ -1121,8 +1156,18 @@ def check_C15(ctx):
 
 
 CHECKS = {"C17": check_C17, "C19": check_C19, "C18": check_C18, "C20": check_C20, "C15": check_C15, "C13": check_C13, "C16": check_C16, "C14": check_C14, "C01": check_C01, "C07": check_C07, "C08": check_C08, "C10": check_C10, "C11": check_C11, "C12": check_C12}
-for _i, _p in enumerate(["C03", "C04", "C05"]):
+for _i, _p in enumerate(["C03", "C04"]):
     CHECKS[_p] = make_protocol_check(10 + _i)
+
+
+def liveness_extra(ctx):
+    """TLC liveness on JadeImpl: FairSpec => eventually complete (and its violation without the user's recovery)"""
+    q = ctx.tier == "quick"
+    ctx.impl_liveness("JadeImpl liveness", families.protocol_quick() if q else families.protocol_thorough(),
+                      maxb=3 if q else 4, maxuser=4 if q else 5)
+
+
+CHECKS["C05"] = make_protocol_check(12, extra=liveness_extra)
 CHECKS["C02"] = make_protocol_check(14, extra=histories_extra)     # dependency order also when jobs are rerun
 CHECKS["C09"] = make_protocol_check(15, extra=histories_extra)
 # C06 also under failing scheduler queries: the limit is stated for every instant, not only for fault-free runs
